@@ -4,6 +4,7 @@
 //! constructors, runs `State::run` from /repo's working tree under `catch_unwind`, and prints one
 //! canonical S-expression per program describing everything observable: errors, global tables,
 //! global stack and, for every function, the complete block tree.
+mod extuse;
 mod mirror;
 mod sx;
 
@@ -1140,6 +1141,11 @@ fn work(mode: &str, input: &str, output: &str) {
 
 fn main() {
     let args: Vec<String> = std::env::args().collect();
+    if args.len() == 2 && args[1] == "extuse" {
+        std::panic::set_hook(Box::new(|_| {}));
+        println!("{}", extuse::run());
+        return;
+    }
     if args.len() != 4 {
         eprintln!("usage: verif-harness run|codec|json <programs.sexp> <out>");
         std::process::exit(2);
